@@ -747,6 +747,16 @@ func mergeTree(cts []*rlwe.Ciphertext, t int, merge func(a, b *rlwe.Ciphertext) 
 	}
 }
 
+// OUTPATH control: the no-op path returns with the metadata copied and nothing else
+func (ev *fixEvaluator) RescaleNoop(op0 *rlwe.Ciphertext, nb int, opOut *rlwe.Ciphertext) error {
+	*opOut.MetaData = *op0.MetaData
+	if nb == 0 {
+		return nil
+	}
+	ev.r.Add(op0.Value[0], op0.Value[0], opOut.Value[0])
+	return nil
+}
+
 // ERRSTORE control: the failed product stays in the cache
 type powCache struct{ vals map[int]*big.Int }
 
